@@ -3,16 +3,20 @@ from props import rc, TRUST
 PROP = dict(
     rule='rapidcheck over SCHEDULES: case = {launch THREAD|TASK, controller program of <= 8 ops over start / stop / await-k-bodies / pause followed '
          'by destruction (redundant start/start and stop/stop included), <= 3 pause rules "the thread arriving for the j-th time at scheduling point '
-         'P is held until the other thread has reached point Q i times, or 12 ms", body duration 0..200us}. 23 named points (guarded hooks in '
+         'P is held until the other thread has reached point Q i times, or 12 ms", body duration 0..200us}. 25 named points plus 3 harness-side "call returned" events (guarded hooks in '
          'AsyncLoop.h). Plus an enumeration of all single rules (point pair x arrival numbers) over 6 fixed controller programs (sampled 1/16 in '
-         'the quick tier, complete in the thorough tier). Oracle: (S) at the instant stop() returns the body is not executing and the entry count '
+         'the quick tier, complete in the thorough tier). Plus a plain stress property without hooks (2000..30000 tight start/stop rounds, also in an optimised unsanitised build) for interleavings the points cannot produce. Oracle: (S) at the instant stop() returns the body is not executing and the entry count '
          'does not change until start() is next called (compared once the loop thread has gone to sleep); (L) after start() returns the entry count '
          'increases within 10 s; (D) in THREAD mode nothing runs at/after destructor return; (T) the destructor returns (watchdog). '
          'non-trivial = at least one pause rule fired (its thread arrived and was held) and the program contains a stop or destroy after a start; '
          'distinct by hash of the case',
     floor=dict(quick=300, thorough=3000),
     serial=True,
+    confirm_replays=8,
     assumptions=TRUST + ['fidelity of the scheduling points: interleavings that need a pre-emption between two points, or more than 3 coordinated '
                          'holds, are not reached', 'liveness clauses use 10 s budgets and must reproduce in isolated replays'],
-    bins=[rc('C03_asyncloop', 'harness/C03_asyncloop.cpp', 'tbb-asan', hang_s=40, thorough=dict(scale=6, seeds=4))],
+    bins=[rc('C03_asyncloop', 'harness/C03_asyncloop.cpp', 'tbb-asan', hang_s=40, thorough=dict(scale=6, seeds=4)),
+          # the same harness, optimised and unsanitised, stress property only: hardware reorderings need full speed
+          rc('C03_stress_o2', 'harness/C03_asyncloop.cpp', 'tbb-o2', san='', opt='-O2 -g', flags='-DC03_BIN=\\"C03_stress_o2\\"',
+             env={'C03_STRESS_ONLY': '1'}, hang_s=40, quick=dict(scale=3), thorough=dict(scale=30, seeds=4))],
 )
